@@ -192,6 +192,19 @@ CHECKS = {
              note=BASE_NOTE + "No scheduling hooks (H4): real scheduling and memory ordering are exercised, not enumerated; a race that needs a rare schedule can be missed by a run. Readers overlapping a "
              "rotating writer and concurrent read_next are outside the stress scenarios (the known windows); the theorem says nothing about executions that enter them.",
              tech="Lean 4 proof (every interleaving of atomic operations refines the FIFO spec; induction over the interleaving) + real-thread stress correspondence + oracle", ref="§6 C05"),
+ "C19": dict(text="Partial, and the thinnest claim of this manifest: what is proved and tied to the code is octopii's side of the property - the adapter between openraft's apply driver and the application "
+             "(MemStateMachine::apply, storage.rs:315-347, with KvStateMachine below it). openraft's core (replication, elections, commit, which entries reach the adapter and when) is NOT modelled, NOT run "
+             "(the crate cannot be built offline) and appears in the theorems as an explicit hypothesis: each node is fed, per process lifetime, a prefix of one agreed committed sequence G. Model: Model/Adapter.lean "
+             "(applyOne/applyAll/applyBatches, kvApply). Theorems, for entry sequences of any length, any cut into apply calls, any choice of responders: C19_adapter_hands_over_every_command_in_order "
+             "(the application sees exactly the commands among the fed entries, in order - nothing skipped, doubled or reordered), C19_adapter_prefix_even_on_rejection, C19_partial (two nodes - or two lifetimes of a "
+             "restarted node - fed G.take k1 and G.take k2 have applied command sequences one of which is a prefix of the other), C19_same_commands_same_state (same fed prefix => same application state, membership "
+             "and applied id), C19_responders_do_not_matter (proposer and followers end in the same state), C19_last_applied_is_last_fed. Correspondence: MemStateMachine sliced verbatim from storage.rs at build "
+             "time + octopii/src/state_machine.rs compiled from /repo, ~190 node programs per quick run (1500 thorough; clusters of 2-3 nodes over one committed sequence, 1-3 process lifetimes each, "
+             "rejected commands, gappy streams) compared line by line with Adapter.applyAll; independent oracle per node and the pairwise prefix relation across each cluster.",
+             note=BASE_NOTE + "The second sentence of the property (every successful proposal is eventually applied by every live node) and everything that depends on openraft's replication/election logic, the QUIC "
+             "transport and the tokio runtime are outside this check: a change there is not detected. openraft's LogId/Entry/EntryPayload/Membership/StoredMembership/SnapshotMeta/EntryResponder, the RaftStateMachine "
+             "trait and futures' Stream/TryStreamExt are stand-ins (harness/octo/src/raftshim.rs). Snapshots are C20.",
+             tech="Lean 4 proof (induction over the fed entry sequence; the agreement of openraft's core is a hypothesis, not a theorem) + build-time source slicing + differential correspondence + oracle", ref="§6 C19"),
  "C21": dict(text="Partial: the property is FALSE of the code (open finding readAllConsumes). Model (Model/LogStore.lean): MemLogStoreInner, WalLogRecord, recover_from_wal, the peer-address records and "
              "WriteAheadLog as a record list with the engine's persisted consumed-count; restarts (clean, killed, in-process drop) keep the logs and drop the in-memory part. Theorems, for histories of any "
              "length with any number of restarts: C21_logs_hold_ack (replaying the WHOLE of each log always gives exactly the acknowledged vote, committed id, purge point, entries and peer addresses - "
@@ -231,7 +244,6 @@ CHECKS = {
              tech="Lean 4 proof (inductive invariant over scheduler actions; frame lemma for all 15 task states) + counterexample by kernel evaluation + schedule-for-schedule differential correspondence on the real code + oracle", ref="§6 C23"),
 }
 NOT_APPLICABLE = {
- "C19": "statement about the vendored openraft core + QUIC transport + tokio runtime, none of which can be built or run offline here (tokio, quinn, rustls, futures absent from the registry); a free-standing Raft proof would be tied to nothing (DESIGN.md §6 C19)",
 }
 PENDING = "not claimed yet: model/theorems/correspondence for this property are still being built (see DESIGN.md §9 order of work)"
 ALL = ["C%02d" % i for i in range(1, 26)]
